@@ -169,7 +169,12 @@ func runC12(c *Ctx) {
 	{
 		res := mustResource(`{"resourceType":"Patient","id":"x","text":{"status":"generated","div":"<div xmlns=\"http://www.w3.org/1999/xhtml\">x</div>"}}`)
 		for _, w := range []struct{ src, want string }{{"Patient.text.`div` is Element", "ok:t"}, {"Patient.text.`div` is DomainResource", "ok:f"}, {"Patient.text.`div` is Resource", "ok:f"}, {"Patient.text.`div` is BackboneElement", "ok:f"},
-			{"Patient.text.`div`.exists()", "ok:t"}, {"Patient.descendants().all($this is Element)", "ok:t"}, {"Patient.text is Narrative", "ok:t"}, {"Patient.text.status is code", "ok:t"}, {"(Patient.text.`div` as Element).exists()", "ok:t"}} {
+			{"Patient.text.`div`.exists()", "ok:t"}, {"Patient.descendants().all($this is Element)", "ok:t"},
+			// its type name is xhtml, a primitive that specialises nothing but Element — in particular it is no string
+			{"Patient.text.`div` is xhtml", "ok:t"}, {"Patient.text.`div` is FHIR.xhtml", "ok:t"}, {"Patient.text.`div` is string", "ok:f"}, {"Patient.text.`div` is FHIR.string", "ok:f"},
+			{"Patient.text.`div` is markdown", "ok:f"}, {"Patient.text.`div` is uri", "ok:f"}, {"Patient.text.`div` is code", "ok:f"}, {"Patient.text.`div` is System.String", "ok:f"}, {"Patient.text.`div` is String", "ok:f"},
+			{"(Patient.text.`div` as string).empty()", "ok:t"}, {"(Patient.text.`div` as xhtml).exists()", "ok:t"}, {"Patient.text.`div` is Xhtml", "err"}, {"Patient.text.`div` is FHIR.Xhtml", "err"},
+			{"Patient.text.status is string", "ok:t"}, {"Patient.id is string", "ok:t"}, {"Patient.id is xhtml", "ok:f"}, {"Patient.text is Narrative", "ok:t"}, {"Patient.text.status is code", "ok:t"}, {"(Patient.text.`div` as Element).exists()", "ok:t"}} {
 			o := compileEval(w.src, []fhir.Resource{res})
 			got := "err"
 			if o.Err == nil && !o.Panicked {
